@@ -8,6 +8,8 @@ import (
 	"sort"
 	"strings"
 
+	"golang.org/x/tools/go/packages"
+
 	"j5verif/checker/core"
 	"j5verif/checker/rules"
 )
@@ -210,7 +212,7 @@ func acceptanceMatrix(r *core.Run) {
 			continue
 		}
 		seen[kind] = true
-		acc := acceptedTypes(info, cc)
+		acc := acceptedTypes(pk, cc)
 		var al []string
 		for a := range acc {
 			al = append(al, a)
@@ -226,14 +228,14 @@ func acceptanceMatrix(r *core.Run) {
 		}
 		if kind == "Field_Integer" {
 			// every format's inner switch accepts string and int64
-			ast.Inspect(cc, func(n ast.Node) bool {
+			core.InspectTree(pk, cc, func(n ast.Node) bool {
 				icc, ok := n.(*ast.CaseClause)
 				if !ok || len(icc.List) != 1 || !strings.Contains(core.ExprStr(icc.List[0]), "IntegerField_FORMAT_") {
 					return true
 				}
 				fmtName := core.ExprStr(icc.List[0])
 				fmtName = fmtName[strings.LastIndex(fmtName, "FORMAT_"):]
-				inner := acceptedTypes(info, icc)
+				inner := acceptedTypes(pk, icc)
 				for _, t := range []string{"string", "int64"} {
 					o := r.Add("R-FLOW/F1", fmt.Sprintf("j5reflect.scalarReflectFromGo | Integer %s accepts %s", fmtName, t), icc.Pos(), fmt.Sprintf("integer %s must accept %s", fmtName, t))
 					if inner[t] {
@@ -256,9 +258,10 @@ func acceptanceMatrix(r *core.Run) {
 
 // acceptedTypes: Go types accepted (not answered with an error) by the type
 // switches / comma-ok assertions on the input value inside the clause.
-func acceptedTypes(info *types.Info, root ast.Node) map[string]bool {
+func acceptedTypes(pk *packages.Package, root ast.Node) map[string]bool {
+	info := pk.TypesInfo
 	acc := map[string]bool{}
-	ast.Inspect(root, func(n ast.Node) bool {
+	core.InspectTree(pk, root, func(n ast.Node) bool {
 		switch x := n.(type) {
 		case *ast.TypeSwitchStmt:
 			if n == root {
@@ -321,7 +324,7 @@ func bitSizes(r *core.Run, rel, fn string) {
 	width := map[string]int{"ValueOfInt32": 32, "ValueOfUint32": 32, "ValueOfInt64": 64, "ValueOfUint64": 64, "ValueOfFloat32": 32, "ValueOfFloat64": 64}
 	parsed := map[string]bool{}
 	n := 0
-	ast.Inspect(fd.Body, func(nd ast.Node) bool {
+	core.InspectTree(pk, fd.Body, func(nd ast.Node) bool {
 		cc, ok := nd.(*ast.CaseClause)
 		if !ok {
 			return true
@@ -434,6 +437,9 @@ func bitSizes(r *core.Run, rel, fn string) {
 }
 
 func clauseLabel(info *types.Info, fd *ast.FuncDecl, cc *ast.CaseClause) string {
+	if cc == nil {
+		return ""
+	}
 	var parts []string
 	for _, n := range core.PathTo(fd.Body, cc) {
 		if c, ok := n.(*ast.CaseClause); ok && len(c.List) > 0 {
@@ -529,7 +535,7 @@ func queryReuse(r *core.Run) {
 		return
 	}
 	calls := map[string]bool{}
-	ast.Inspect(fd.Body, func(n ast.Node) bool {
+	core.InspectTree(pk, fd.Body, func(n ast.Node) bool {
 		if c, ok := n.(*ast.CallExpr); ok {
 			calls[core.CalleeName(pk.TypesInfo, c)] = true
 		}
@@ -561,7 +567,7 @@ func numberPreconversion(r *core.Run) {
 	}
 	info := pk.TypesInfo
 	n := 0
-	ast.Inspect(fd.Body, func(nd ast.Node) bool {
+	core.InspectTree(pk, fd.Body, func(nd ast.Node) bool {
 		ifs, ok := nd.(*ast.IfStmt)
 		if !ok || ifs.Init == nil {
 			return true
